@@ -30,6 +30,9 @@ type TokenizeOptions struct {
 func Tokenize(s string, opts TokenizeOptions) ([]Token, error) {
 	l := lexer{}
 	l.scanner.Init(strings.NewReader(s))
+	// LogQL has # comments only: do not let scanner skip Go comments,
+	// or "a // b" is silently read as "a".
+	l.scanner.Mode = scanner.GoTokens &^ (scanner.ScanComments | scanner.SkipComments)
 	l.scanner.Filename = opts.Filename
 	if opts.AllowDots {
 		l.scanner.IsIdentRune = func(ch rune, i int) bool {
